@@ -620,9 +620,9 @@ def r6(ck, F):
         ck.ok("C08.R6", "Vec<S>::enabled = all(children)", fn=be.path)
 
 
-def r7(ck, F):
+def r7(ck, F, rid="C08.R7"):
     b = F.body("tracing_subscriber::subscribe::layered::Layered::<A, B, C>::pick_level_hint")
-    if not ck.anchor("C08.R7", "Layered::pick_level_hint", b):
+    if not ck.anchor(rid, "Layered::pick_level_hint", b):
         return
     conds = {show(c[0]) for p in PathEval(b).run() for c in p.conds}
     problems = []
@@ -644,6 +644,6 @@ def r7(ck, F):
         if not (fresh or const):
             problems.append("%s passes inner_is_none from %s, not from a fresh subscriber_is_none(&self.inner)" % (x.path[-60:], o[0]))
     if problems:
-        ck.bad("C08.R7", "pick_level_hint has the None-layer branches, evaluated on the live layers", where(b.raw["sp"]), "; ".join(problems), fn=b.path)
+        ck.bad(rid, "pick_level_hint has the None-layer branches, evaluated on the live layers", where(b.raw["sp"]), "; ".join(problems), fn=b.path)
     else:
-        ck.ok("C08.R7", "pick_level_hint has the None-layer branches, evaluated on the live layers (Option<S>::None hint OFF is corrected at composition)", fn=b.path)
+        ck.ok(rid, "pick_level_hint has the None-layer branches, evaluated on the live layers (Option<S>::None hint OFF is corrected at composition)", fn=b.path)
